@@ -43,7 +43,7 @@ BUILTIN_NAMES = {
     "getattr", "setattr", "object", "sum", "any", "all", "enumerate", "zip", "abs", "print", "sorted", "dict", "set",
     "frozenset", "divmod", "cast",
     # primitives for trusted model code (stubs)
-    "nondet_bool", "nondet_int", "nondet_bytes", "nondet_obj", "nondet_real", "assume", "require", "raise_any", "ghost_event",
+    "nondet_bool", "nondet_int", "nondet_bytes", "nondet_obj", "nondet_real", "assume", "require", "raise_any", "ghost_event", "seq_of", "filter",
 }
 
 
@@ -65,7 +65,7 @@ EXC_REPRESENTATIVES: list[type] = [
 ]
 SPEC_NAMES = {
     "old", "pre", "result", "exc", "forall", "exists", "implies", "ite", "occ", "pm", "first", "isfirst", "nofirst", "flat",
-    "no_occ", "iff", "Resync", "rk", "view_lo", "view_hi", "view_of", "orempty", "same_object", "base", "isinf", "fin", "xreal", "unit", "empty_seq", "fn", "typeof", "isnone", "fresh_call",
+    "no_occ", "iff", "Resync", "rk", "view_lo", "view_hi", "view_of", "orempty", "same_object", "base", "tail", "isinf", "fin", "xreal", "unit", "empty_seq", "fn", "typeof", "isnone", "fresh_call",
 }
 ALLOWED_EXTERNAL_CONST_MODULES = {"errno", "math", "selectors", "socket", "ssl", "sys", "os"}
 
@@ -214,6 +214,7 @@ class EngineCore:
             return [(st, True)]
         if z3.is_false(c):
             return [(st, False)]
+        c = cond  # keep the un-simplified form in the path condition (z3.simplify introduces solver-internal seq.nth_i/_u)
         out = []
         t_ok = self.feasible(st, c)
         f_ok = self.feasible(st, z3.Not(c))
@@ -290,6 +291,11 @@ class EngineCore:
                 return self.external_value(r[1])
             if r[0] == "const":
                 _, expr, mod = r
+                for nm, e2 in mod.globals_.items():
+                    if e2 is expr and f"{mod.relpath}:{nm}" in self.R.symbolic_consts:
+                        t = self.R.symbolic_consts[f"{mod.relpath}:{nm}"]
+                        from .values import sort_of_type
+                        return z3.Const("const_" + nm, sort_of_type(t))
                 return self.eval_module_const(expr, mod, st)
         raise EngineError(f"cannot convert global {r!r}")
 
